@@ -3000,6 +3000,8 @@ class CV:
             return '(kset %s)' % t
         if ty == T_I:
             return '(kitem %s)' % t
+        if ty == TS(T_I):
+            return '(py_key_itemset %s)' % t
         if ty == T_K:
             return t
         die(e, 'dictionary key of type %s' % (ty,))
@@ -3014,7 +3016,7 @@ class CV:
         t, ty = self.expr(e, env)
         if ty == T_B:
             return t
-        if isinstance(ty, tuple) and ty[0] in ('L', 'S'):
+        if isinstance(ty, tuple) and ty[0] in ('L', 'S') and ty != TS(T_I):
             return '(0 <? py_len %s)%%Z' % t       # truth value of a list / frozenset: non-empty
         die(e, 'truth value of a %s' % (ty,))
 
@@ -3127,7 +3129,7 @@ class CV:
             return '(py_frac %s %s)' % (self.num(a, T_Q, e), self.num(b, T_Q, e)), T_Q
         if name == 'len' and len(args) == 1:
             a = self.expr(args[0], env)
-            if isinstance(a[1], tuple) and a[1][0] in ('L', 'S'):
+            if isinstance(a[1], tuple) and a[1][0] in ('L', 'S') and a[1] != TS(T_I):
                 return '(py_len %s)' % a[0], T_Z
             die(e, 'len of a %s' % (a[1],))
         if name == 'frozenset' and len(args) == 1:
@@ -3138,6 +3140,8 @@ class CV:
                 if not (isinstance(ty0, tuple) and ty0[0] in ('L', 'S', 'M')):
                     die(e, 'frozenset of a %s' % (ty0,))
                 ty = ty0[1]
+            if ty == T_I and not isinstance(args[0], ast.GeneratorExp):
+                return t, TS(T_I)       # a frozenset of items: carried as the list it is built from, only usable as a dictionary key
             if ty != T_C:
                 die(e, 'frozenset of items of type %s' % (ty,))
             return '(py_frozenset %s)' % t, TS(T_C)
@@ -3197,7 +3201,7 @@ class CV:
                 return '(py_enumerate %s)' % t, TP(T_Z, ty[1])
             die(e, 'enumerate of a %s' % (ty,))
         t, ty = self.expr(e, env)
-        if isinstance(ty, tuple) and ty[0] in ('L', 'S') and not isinstance(ty[1], TyVar):
+        if isinstance(ty, tuple) and ty[0] in ('L', 'S') and not isinstance(ty[1], TyVar) and ty != TS(T_I):
             return t, ty[1]
         if isinstance(ty, tuple) and ty[0] == 'D':
             return '(map fst %s)' % t, ty[1]       # iterating a dictionary: its keys
@@ -3407,6 +3411,8 @@ class CV:
                 env2[r] = (nm, TL(tv))
                 self.mutable.add(r)
                 return 'let %s := ([] : list (%s)) in\n  %s' % (nm, cv_type(tv), k(env2))
+            if isinstance(v, ast.Name) and (v.id in self.mutable or v.id in self.dd):
+                die(s, 'a second name for a dictionary / set / list this function changes in place')
             t, ty = self.expr(v, env)
             env2[r] = (nm, ty)
             return 'let %s := %s in\n  %s' % (nm, t, k(env2))
@@ -3636,6 +3642,8 @@ CONVERT_UNITS = [
                  params=[('votes', 'votes', CV_NESTED)]),
             dict(name='InvertedApprovalVotes_convert', cls='InvertedApprovalVotes', fn='convert', static=True,
                  params=[('votes', 'votes', CV_APPROVAL)]),
+            dict(name='RankedToFirstNPreferences_convert', cls='RankedToFirstNPreferences', fn='convert',
+                 params=[('n_first', 'self.n_first', T_Z), ('votes', 'votes', CV_RANKED)]),
             # votelib.util.all_rankings is a generator with a while loop: not translated, a function parameter (candidate, (rank, count))
             dict(name='RankedToPresenceCounts_convert', cls='RankedToPresenceCounts', fn='convert',
                  ext={'votelib.util.all_rankings': ('all_rankings', [CV_RANKED], TL(TP(T_C, TP(T_Z, T_Q))), 'votelib.util')},
